@@ -33,53 +33,53 @@ theorem recvAll_no_panic (σ : BState) (s : Bytes) (term : Term) : (recvAll σ s
   | panic => exact absurd rfl hnp
 
 /-- **async**: no call of a session panics, including `extra` calls after the first error -/
-theorem C09_async_total (fuel extra : Nat) (buf : Bytes) (chunks : List Bytes) (term : Term)
-    (hne : NonEmptyChunks chunks) : Item.panic ∉ sessionA fuel extra buf chunks term := by
-  induction fuel generalizing extra buf chunks with
+theorem C09_async_total (fuel extra : Nat) (σ : BState) (buf : Bytes) (chunks : List Bytes) (term : Term)
+    (hne : NonEmptyChunks chunks) : Item.panic ∉ sessionA fuel extra σ buf chunks term := by
+  induction fuel generalizing extra σ buf chunks with
   | zero => simp [sessionA]
   | succ fuel ih =>
     rw [sessionA]
-    obtain ⟨h1, h2⟩ := recvLoopA_eq .initial buf chunks term hne
+    obtain ⟨h1, h2⟩ := recvLoopA_eq σ buf chunks term hne
     unfold recvA
-    rcases hr : recvLoopA .initial buf chunks term with ⟨it, buf', cs'⟩
+    rcases hr : recvLoopA σ buf chunks term with ⟨it, buf', cs', σ'⟩
     rw [hr] at h1 h2
     simp only at h1 h2
     have hit : it ≠ .panic := by
-      have := recvAll_no_panic .initial (buf ++ chunks.flatten) term
+      have := recvAll_no_panic σ (buf ++ chunks.flatten) term
       rw [← h1] at this
       exact this
     cases it with
-    | resp r => simp only [List.mem_cons, reduceCtorEq, false_or]; exact ih extra buf' cs' h2
+    | resp r => simp only [List.mem_cons, reduceCtorEq, false_or]; exact ih extra σ' buf' cs' h2
     | panic => exact absurd rfl hit
     | clean | invalid | unexpectedEof | io k =>
       cases extra with
       | zero => simp
-      | succ e => simp only [List.mem_cons, reduceCtorEq, false_or]; exact ih e buf' cs' h2
+      | succ e => simp only [List.mem_cons, reduceCtorEq, false_or]; exact ih e σ' buf' cs' h2
 
 /-- **blocking**: same, and the buffer invariant `total_received < len` is maintained across calls,
 so `split_off(total_received)` is always in bounds -/
-theorem C09_sync_total (fuel extra : Nat) (b : SBuf) (chunks : List Bytes) (term : Term)
-    (hne : NonEmptyChunks chunks) (hinv : SInv b) : Item.panic ∉ sessionS fuel extra b chunks term := by
-  induction fuel generalizing extra b chunks with
+theorem C09_sync_total (fuel extra : Nat) (σ : BState) (b : SBuf) (chunks : List Bytes) (term : Term)
+    (hne : NonEmptyChunks chunks) (hinv : SInv b) : Item.panic ∉ sessionS fuel extra σ b chunks term := by
+  induction fuel generalizing extra σ b chunks with
   | zero => simp [sessionS]
   | succ fuel ih =>
     rw [sessionS]
-    obtain ⟨h1, h2, h3, _⟩ := recvLoopS_eq (scriptLen chunks + 1) .initial b chunks term hne hinv (Nat.lt_succ_self _)
+    obtain ⟨h1, h2, h3, _⟩ := recvLoopS_eq (scriptLen chunks + 1) σ b chunks term hne hinv (Nat.lt_succ_self _)
     unfold recvS
-    rcases hr : recvLoopS (scriptLen chunks + 1) .initial b chunks term with ⟨it, b', cs'⟩
+    rcases hr : recvLoopS (scriptLen chunks + 1) σ b chunks term with ⟨it, b', cs', σ'⟩
     rw [hr] at h1 h2 h3
     simp only at h1 h2 h3
     have hit : it ≠ .panic := by
-      have := recvAll_no_panic .initial (b.data ++ chunks.flatten) term
+      have := recvAll_no_panic σ (b.data ++ chunks.flatten) term
       rw [← h1] at this
       exact this
     cases it with
-    | resp r => simp only [List.mem_cons, reduceCtorEq, false_or]; exact ih extra b' cs' h2 h3
+    | resp r => simp only [List.mem_cons, reduceCtorEq, false_or]; exact ih extra σ' b' cs' h2 h3
     | panic => exact absurd rfl hit
     | clean | invalid | unexpectedEof | io k =>
       cases extra with
       | zero => simp
-      | succ e => simp only [List.mem_cons, reduceCtorEq, false_or]; exact ih e b' cs' h2 h3
+      | succ e => simp only [List.mem_cons, reduceCtorEq, false_or]; exact ih e σ' b' cs' h2 h3
 
 /-- what the parser rejects ends the session with the invalid-message error (never a response
 made up from the rejected bytes) -/
